@@ -964,4 +964,143 @@ def rule_dispatch(ctx):
                         lambda i: True, 2)
 
 
-RULES = [rule_emptyok, rule_dispatch, rule_keys, rule_infer, rule_topo, rule_linear, rule_ssaid, rule_edge, rule_count]
+def rule_convert(ctx):
+    """(engine E9) The three converters are pure functions on tuples of ids.  Their source is evaluated by the engine's
+    mini-evaluator on **every** single-assignment path of up to four steps over up to four inputs (two steps over
+    five) whose steps take one, two or three tensors (complete and partial paths) and on every order of the indices of a set of small networks, and the
+    results are checked against the definitions: positions of a recycled-id step are distinct, in range and denote
+    exactly the ids of the single-assignment step; converting back gives the same steps (as sets); an edge order
+    yields steps that take exactly the live tensors carrying the index at that moment."""
+    import itertools
+
+    from ..engine.minieval import Mini, NoEval, Raised
+
+    r = RuleResult("C10-CONVERT", "the converters are inverse to each other and follow the id conventions on a bounded family", 2)
+    m = ctx.p.modules[C.BASIC]
+    fs = {g.name: g.node for g in m.all_funcs if g.cls is None and g.name in ("linear_to_ssa", "ssa_to_linear", "edge_path_to_ssa")}
+    C.require(len(fs) == 3, "converters not found")
+
+    def ssa_paths(N, maxlen=4):
+        out = []
+
+        def rec(live, nxt, path):
+            out.append(tuple(path))
+            if len(live) <= 1 or len(path) >= maxlen:
+                return
+            for k_ in (1, 2, 3):
+                if k_ > len(live):
+                    continue
+                for comb in itertools.combinations(live, k_):
+                    rest = [x for x in live if x not in comb]
+                    rec(rest + [nxt], nxt + 1, path + [comb])
+        rec(list(range(N)), N, [])
+        return out
+
+    def call(name, args):
+        return Mini(fs, budget=40000).call(fs[name], args)
+
+    step = 1 if ctx.tier == "thorough" else 5
+    bad = None
+    n_paths = 0
+    k1 = ctx.key(ctx.p.func(C.BASIC, "ssa_to_linear"), "C10-CONVERT", "inverse-pair")
+    try:
+        idx = 0
+        for N in (1, 2, 3, 4, 5):
+            for P in ssa_paths(N, 4 if N <= 4 else 2):
+                idx += 1
+                if idx % step:
+                    continue
+                n_paths += 1
+                try:
+                    L = call("ssa_to_linear", [P, N])
+                    # reference meaning of the recycled ids
+                    ids = list(range(N))
+                    nxt = N
+                    for stp, want in zip(L, P):
+                        stp = list(stp)
+                        if len(set(stp)) != len(stp) or any(not (0 <= c < len(ids)) for c in stp):
+                            raise _NoVal(f"step {tuple(stp)} is not a set of existing positions (of {len(ids)})")
+                        got = sorted(ids[c] for c in stp)
+                        if got != sorted(want):
+                            raise _NoVal(f"positions {tuple(stp)} denote the ids {got}, the step is {tuple(sorted(want))}")
+                        for c in sorted(stp, reverse=True):
+                            ids.pop(c)
+                        ids.append(nxt)
+                        nxt += 1
+                    if len(L) != len(P):
+                        raise _NoVal("the number of steps changes")
+                    back = call("linear_to_ssa", [L, N])
+                    if [sorted(x) for x in back] != [sorted(x) for x in P]:
+                        raise _NoVal(f"converting back gives {[tuple(sorted(x)) for x in back]}")
+                    complete = (N - sum(len(x) - 1 for x in P)) == 1
+                    if complete:
+                        L2 = call("ssa_to_linear", [P])
+                        if [sorted(x) for x in L2] != [sorted(x) for x in L]:
+                            raise _NoVal("without the number of inputs the result differs for a complete path")
+                        if [sorted(x) for x in call("linear_to_ssa", [L])] != [sorted(x) for x in P]:
+                            raise _NoVal("linear_to_ssa without the number of inputs differs for a complete path")
+                except _NoVal as e:
+                    bad = bad or (P, N, str(e))
+                except Raised as e:
+                    bad = bad or (P, N, f"raises ({e.text})")
+                except NoEval:
+                    raise
+                except Exception as e:
+                    bad = bad or (P, N, f"raises ({type(e).__name__}: {e})")
+    except NoEval as e:
+        raise AnalysisError(f"converters not evaluable by the mini-evaluator ({e})")
+    if bad:
+        r.violation(k1, ctx.p.func(C.BASIC, "ssa_to_linear").loc, f"for the single-assignment path {bad[0]} over {bad[1]} inputs: {bad[2]}")
+    else:
+        r.ok(k1, ctx.p.func(C.BASIC, "ssa_to_linear").loc, f"{n_paths} paths over up to 5 inputs (steps of 1-3 tensors, complete and partial): exact inverse pair")
+    # edge orders
+    k2 = ctx.key(ctx.p.func(C.BASIC, "edge_path_to_ssa"), "C10-CONVERT", "edge-order")
+    nets = [(("a", "b"), ("b", "c"), ("c", "a")), (("a", "b"), ("b", "c"), ("c",)), (("a", "b", "c"), ("a",), ("b",), ("c",)),
+            (("a", "h"), ("b", "h"), ("c", "h")), (("a",), ("b",), ("a", "b")), (("a", "a"), ("a", "b")), (("a", "b"), ("c", "d")),
+            (("a", "b", "c"), ("c", "d"), ("d", "a"), ("b",)), ((), ("a",), ("a",))]
+    bad = None
+    n_orders = 0
+    try:
+        for inputs in nets:
+            inds = sorted({ix for t in inputs for ix in t})
+            for order in itertools.permutations(inds):
+                n_orders += 1
+                try:
+                    P = call("edge_path_to_ssa", [tuple(order), inputs])
+                    live = {i: set(t) for i, t in enumerate(inputs)}
+                    nxt = len(inputs)
+                    steps = list(P)
+                    for ix in order:
+                        carriers = sorted(i for i, t in live.items() if ix in t)
+                        if len(carriers) < 2:
+                            continue
+                        if not steps:
+                            raise _NoVal(f"no step for index `{ix}` although the tensors {carriers} carry it")
+                        stp = steps.pop(0)
+                        if sorted(stp) != carriers:
+                            raise _NoVal(f"the step for `{ix}` takes {tuple(stp)}, the live tensors carrying it are {tuple(carriers)}")
+                        new = set()
+                        for c in carriers:
+                            new |= live.pop(c)
+                        live[nxt] = new
+                        nxt += 1
+                    if steps:
+                        raise _NoVal(f"{len(steps)} step(s) more than indices that join tensors")
+                except _NoVal as e:
+                    bad = bad or (inputs, order, str(e))
+                except Raised as e:
+                    bad = bad or (inputs, order, f"raises ({e.text})")
+                except NoEval:
+                    raise
+                except Exception as e:
+                    bad = bad or (inputs, order, f"raises ({type(e).__name__}: {e})")
+    except NoEval as e:
+        raise AnalysisError(f"edge_path_to_ssa not evaluable by the mini-evaluator ({e})")
+    if bad:
+        r.violation(k2, ctx.p.func(C.BASIC, "edge_path_to_ssa").loc, f"for the network {bad[0]} and the index order {bad[1]}: {bad[2]}")
+    else:
+        r.ok(k2, ctx.p.func(C.BASIC, "edge_path_to_ssa").loc, f"{n_orders} index orders over {len(nets)} networks: each step takes exactly the live carriers of its index")
+    return r
+
+
+RULES = [rule_convert, rule_emptyok, rule_dispatch, rule_keys, rule_infer, rule_topo, rule_linear, rule_ssaid, rule_edge, rule_count]
